@@ -581,3 +581,6 @@ for h in reg["C14"]["harnesses"]:
     if h["name"] == "VH_P_Search":
         h["labels"] = sorted(set(h["labels"] + ["O2:"]))
 reg["C14"]["explanation"] += "; the lazy time-outs a search performs are transactions like any other: every clause of the store invariant and of the transition guarantee (G6 included) is re-proved for them"
+# C08 "a task is marked enqueued only after a successful hand-off": the lease sweep puts a reclaimed task back to INIT (never to
+# enqueued) - the sweep's own obligations are owed to C08 too (round-six change C08-G, re-run against the final machinery)
+ensure("C08", ["VH_T_TimeoutSweep"], ["C07:reclaim", "C07:taken-only"])
